@@ -523,6 +523,12 @@ pub fn oracle_c08(scn: &Scenario, t: &Trace, st: &mut ExploreStats) -> Vec<Viola
     let mut out = Vec::new();
     let Some((fault, _)) = &t.fault else { return out };
     let choices = t.choice_names();
+    // a fault that made the handshake itself fail: there is no client, no request and no event stream to
+    // speak of (C18 judges the handshake's result)
+    if !matches!(t.connect_result, Some(Ok(_))) {
+        st.count("fault_during_the_handshake");
+        return out;
+    }
     // did the client run into the fault?
     // (the malformed line is the last 11 bytes of the stream; the client may stop reading in the
     // middle of it once the line cannot become valid any more)
@@ -593,6 +599,30 @@ pub fn oracle_c08(scn: &Scenario, t: &Trace, st: &mut ExploreStats) -> Vec<Viola
                         ));
                     }
                 }
+            }
+        }
+    }
+    // a picture load that the connection's end interrupted: the picture (if every chunk had been read), or an
+    // error - never "no picture", and never other bytes than the server's
+    for (ci, ops) in t.ops.iter().enumerate() {
+        for (oi, rec) in ops.iter().enumerate() {
+            if !matches!(rec.op, Op::AlbumArt(_)) || rec.issued_step.is_none() || rec.cancelled {
+                continue;
+            }
+            st.count("album_art_loads_under_fault");
+            let crate::mpdref::server::PicSource::Data(want, want_mime) = &scn.server.embedded else { continue };
+            match &rec.outcome {
+                Some(OpOutcome::Art(Ok(None))) => out.push(Violation::new(
+                    "C08/album-art-failure-reported-as-absent",
+                    format!("caller {ci} op {oi}: album_art resolved with Ok(None) although the server has the picture; {} ended the connection during the load (choices {:?})", fault.name(), choices),
+                    Value::Null,
+                )),
+                Some(OpOutcome::Art(Ok(Some((b, m))))) if b != want || m != want_mime => out.push(Violation::new(
+                    "C08/album-art-partial-result",
+                    format!("caller {ci} op {oi}: album_art resolved with {} bytes (mime {m:?}) instead of the {} the server has, after {} (choices {:?})", b.len(), want.len(), fault.name(), choices),
+                    Value::Null,
+                )),
+                _ => {}
             }
         }
     }
@@ -797,6 +827,32 @@ pub fn s4c(_tier: Tier) -> Scenario {
 
 /// a server that refuses `idle` (restricted default permissions, nobody authenticated): from the
 /// client's point of view the session ends there; nothing may hang
+/// faults from the very first moment of the connection's life: the greeting is still on its way when the fault
+/// strikes, so the run loop's first write / first read is the one that fails (round 6: an early exit of the
+/// loop that skips what every later exit does)
+pub fn early_fault(tier: Tier) -> Scenario {
+    let mut s = micro_fault(tier);
+    s.name = "micro-fault+greeting-in-flight".into();
+    s.greeting_upfront = false;
+    s.notify_budget = 0;
+    s
+}
+
+/// a multi-request operation (album art in three chunks) under faults: a failure while one of ITS requests is
+/// queued or in flight is that operation's failure, never "this song has no picture"
+pub fn art_fault(_tier: Tier) -> Scenario {
+    let mut s = Scenario::new("C08-album-art-under-faults", vec![caller(vec![Op::AlbumArt("dir/song one.flac".into())]), caller(vec![Op::Raw("cmd B1".into())])]);
+    s.server.embedded = crate::mpdref::server::PicSource::Data((0..11u8).map(|i| i.wrapping_mul(37) ^ 0x0a).collect(), Some("image/png".into()));
+    s.server.cover = crate::mpdref::server::PicSource::Empty;
+    s.server.binary_limit = 4;
+    s.max_steps = 400;
+    s.split_budget = 1;
+    s.faults = vec![FaultKind::Close, FaultKind::ReadErr, FaultKind::ReadErrAfter, FaultKind::Garbage, FaultKind::WriteErr];
+    s.fault_budget = 1;
+    s.late_probe = true;
+    s
+}
+
 pub fn idle_refused(_tier: Tier) -> Scenario {
     let mut s = Scenario::new("server-refuses-idle", vec![caller(vec![Op::Raw("cmd A1".into()), Op::Raw("cmd A2".into())]), caller(vec![Op::Raw("cmd B1".into())])]);
     s.server.password = Some("secret".into());
@@ -996,7 +1052,7 @@ pub fn find_scenario_any(name: &str) -> Option<Scenario> {
 }
 
 fn find_scenario(name: &str, tier: Tier) -> Option<Scenario> {
-    let mut all = vec![s1(tier), s1p(tier), s2(tier), s3(tier), micro(tier), micro2(tier), s4(tier), micro_fault(tier), s5(tier), micro_ticks(tier), micro_stall(tier), micro_cancel(tier), s6(tier), s4c(tier), idle_refused(tier)];
+    let mut all = vec![s1(tier), s1p(tier), s2(tier), s3(tier), micro(tier), micro2(tier), s4(tier), micro_fault(tier), s5(tier), micro_ticks(tier), micro_stall(tier), micro_cancel(tier), s6(tier), s4c(tier), idle_refused(tier), art_fault(tier), early_fault(tier)];
     for base in [micro(Tier::Quick), micro2(Tier::Quick)] {
         let mut e = base.clone();
         e.split_menu = SplitMenu::Lines;
@@ -1327,6 +1383,9 @@ pub fn run_c08(tier: Tier) -> i32 {
         Plan { scn: s4(tier), bound: tier.pick(3, 4) },
         Plan { scn: with_dropped_events(s4(tier)), bound: tier.pick(2, 3) },
         Plan { scn: s4c(tier), bound: tier.pick(3, 4) },
+        Plan { scn: art_fault(tier), bound: tier.pick(2, 3) },
+        Plan { scn: early_fault(tier), bound: tier.pick(3, 4) },
+        Plan { scn: with_dropped_events(early_fault(tier)), bound: tier.pick(2, 3) },
     ];
     let (cov, viol) = run_plans(
         &ctx,
